@@ -69,7 +69,8 @@ TOL_ID_FD = 1e-5        # potential identity by finite differences of the real c
 TOL_TREE = 1e-10        # real doubles vs the translated tree in Decimal
 TOL_V, TOL_H = 5e-4, 200.0   # IAPWS-IF97 consistency at region boundaries: 0.05 % in v, 0.2 kJ/kg in h
 BAND = 1e-9             # states closer than this (relative) to a boundary curve are not classified
-EVIDENCE_EXTRA = {'tolerances': {'inverse_pairs_rel': TOL_INV, 'identity_decimal_rel': TOL_ID_DEC, 'identity_fd_rel': TOL_ID_FD,
+EVIDENCE_EXTRA = {'measured_reach': 'quick run under coverage (pinned tree): every statement and branch of IAPWS97.py power_array, cowat, supst, super, sat, tsat, visc, b23p, b23t, region executed (unexecuted: the two matplotlib plot helpers, outside the property)',
+                  'tolerances': {'inverse_pairs_rel': TOL_INV, 'identity_decimal_rel': TOL_ID_DEC, 'identity_fd_rel': TOL_ID_FD,
                                  'double_vs_tree_rel': TOL_TREE, 'boundary_v_rel': TOL_V, 'boundary_h_J_per_kg': TOL_H,
                                  'classifier_exclusion_band_rel': BAND, 'visc_model_vs_impl_rel': 1e-14}}
 
